@@ -9,6 +9,14 @@ C. failing-input search: (1) the same in-process answers vs the SPEC functions
    spec_find_line / spec_find_sysline / syslines (Coq); (2) stdout of the s4 binary at several
    --blocksz vs the spec `printed` (python transliteration, cross-checked against Coq's
    `printed` on the same cases up to 6 KB).
+B2/C3 (cache mode, WP-A). B2: per file ONE LineReader and ONE SyslineReader driven by a random operation
+   sequence (find_line, find_line_in_block, find_sysline, find_sysline_in_block, LRU caches off/on,
+   drop_data, drop_sysline, the stage driver with a drop plan); after EVERY operation the harness reports
+   the answer and the counters of summary() (LineReader: 9, SyslineReader: 17, inner LineReader: 9 via
+   hook verif_linereader_summary); Corr/C02c.v replays the sequence on Model/Caches.v (vm_compute) and
+   any difference in an answer, a counter or a panic is a B break.  C3: the same answers vs the spec
+   (python transliteration of spec_find_line / spec_find_sysline / syslines, cross-checked with Coq);
+   a failing sequence is shrunk before it is reported.
 """
 import json, os
 import vlib
@@ -62,7 +70,7 @@ def run_inproc(ctx, cases, scratch):
         for o in ops:
             p.append(s.add("%s\t%s" % (o[0], o[1] if len(o) > 1 else "")))
         pos.append(p)
-    out, err = s.run(scratch)
+    out, err = s.run(scratch, timeout=300)
     if out is None:
         ctx.obligation_broken("correspondence", "harness c02 run", err)
         return None
@@ -101,6 +109,130 @@ def binary_files(rng, n):
     return out
 
 
+CACHE_WITNESS = None
+
+
+def cache_witness_cases():
+    """W1..W3 of Proofs/CachesExamples.v with real timestamps: find_sysline after drop_sysline panics;
+    find_sysline_in_block inside a continuation line poisons the LRU cache shared with find_sysline;
+    find_sysline_in_block stores a message without its last (one byte, first byte of a block) line"""
+    t = b"2020-01-01T00:00:0"
+    tab = lambda *ls: {l: 1577836800 + int(l[18:19]) for l in ls}
+    a, b = t + b"1 a\n", t + b"2 b\n"
+    return [
+        ("W1", 16, a + b, tab(a, b), [("CS", 0), ("CDS", 0), ("CS", 0)]),
+        ("W2", 256, a + b"x\n" + b, tab(a, b), [("CSB", 23), ("CS", 23)]),
+        ("W3", 24, b"u\n" + a + b"c", tab(a), [("CSB", 2), ("CS", 2)]),
+    ]
+
+
+def cache_cases(rng, n_files):
+    """[(bs, f, table, ops, profile)]"""
+    out = []
+    for k in range(n_files):
+        r = rng.random()
+        if r < 0.55:
+            bs = rng.choice([1, 2, 3, 4, 5, 7, 8, 16, 31, 32, 33, 64])
+        elif r < 0.8:
+            bs = rng.choice([48, 64, 96, 128, 256])            # whole messages inside one block
+        else:
+            bs = rng.randrange(1, 70)
+        f, tab, lines = U.gen_file(rng, min(bs, 24), nmsg=rng.choice([0, 1, 2, 3, 4, 6, 9]), wild=rng.random() < 0.6,
+                                   maxlen=rng.choice([24, 30, 60]))
+        if rng.random() < 0.04:
+            f, tab = rng.choice([(b"", {}), (b"\n", {}), (b"a", {}), (b"\n\n\n", {}), (b"ab\n", {})])
+        profile = "wild" if rng.random() < 0.25 else "safe"
+        ops = U.cache_ops(rng, f, tab, bs, rng.choice([5, 9, 14, 22, 30]), profile)
+        out.append((bs, f, tab, ops, profile))
+    return out
+
+
+def run_cache_mode(ctx, rng, quick, scratch, cdir):
+    cases = cache_cases(rng, 130 if quick else 3000)
+    wit = cache_witness_cases()
+    allc = [(bs, f, tab, ops) for _, bs, f, tab, ops in wit] + [c[:4] for c in cases]
+    prof = ["wild"] * len(wit) + [c[4] for c in cases]
+    ans, tabs, cops = U.run_cache_cases(allc, scratch)
+    if ans is None:
+        ctx.obligation_broken("correspondence", "harness c02 cache mode", tabs)
+        return {}
+    ccases = [(bs, f, t, [(o_, a_) for o_, a_ in zip(o, a) if a_["kind"] != "ERR"]) for (bs, f, _, _), a, t, o in zip(allc, ans, tabs, cops)]
+    bad = U.eval_shards(ctx, os.path.join(cdir, "cache"), U.coq_cache_cases, ccases, "model evaluation (cache model)")
+    paths, dis = {}, []
+    for sh, k, c in (bad or []):
+        if c >= 10 ** 9 or k >= 10 ** 9:
+            nm = U.CACHE_PATHS.get(k - 10 ** 9, str(k))
+            paths[nm] = paths.get(nm, 0) + 1
+        else:
+            dis.append((sh[k // 1000], k % 1000, c))
+    if dis:
+        ci, j, code = dis[0]
+        bs, f, t, oa = ccases[ci]
+        ctx.obligation_broken(
+            "correspondence", "LineReader/SyslineReader caches + summary() counters vs Model/Caches.v (c_step)",
+            json.dumps(dict(file_hex=f.hex(), blocksz=bs, ops=[list(o) for o, _ in oa], op_index=j,
+                            code={1: "different answer", 2: "model failure", 3: "different counters", 4: "panic mismatch"}.get(code, code),
+                            impl=repr(oa[j][1])[:600] if j < len(oa) else None, disagreements=len(dis))))
+    # C3: answers vs the spec
+    n_ops = n_judged = panics_doc = fails = 0
+    coq_l, coq_s, coq_g = [], [], []
+    wit_ok = {}
+    for ci, ((bs, f, _, _), a, t, o) in enumerate(zip(allc, ans, tabs, cops)):
+        n_ops += len(o)
+        wild_from = U.first_wild_sysline_in_block(o, a)
+        mm = U.cache_spec_mismatches(f, t, o, a, wild_from)
+        panics_doc += sum(1 for x in a if x["kind"] == "PANIC") - sum(1 for _, w in mm if w == "panic")
+        if ci < len(wit):
+            # the recorded witnesses: the model must predict them (B) and they must still deviate
+            name = wit[ci][0]
+            dev = any(x["kind"] == "PANIC" for x in a) or bool(U.cache_spec_mismatches(f, t, o, a, None))
+            wit_ok[name] = dev
+            continue
+        for (op, x) in zip(o, a):
+            if x["kind"] in ("PANIC", "ERR"):
+                continue
+            if op[0] in ("CL", "CLB") and x["res"] is not None or op[0] == "CL":
+                r = x["res"]
+                coq_l.append((f, op[1], None if r is None else (r[0], r[1], r[2], r[6])))
+            elif op[0] == "CS" and (wild_from is None or o.index(op) < wild_from):
+                r = x["res"]
+                coq_s.append((f, t, op[1], None if r is None else (r[0], r[1], r[4], r[5])))
+        n_judged += len(o) if wild_from is None else wild_from
+        if mm:
+            fails += 1
+            if fails > 12:
+                continue
+            sops, sans = U.shrink_cache_case(bs, f, t, o, scratch, wild_from) if fails <= 4 else (o, a)
+            if sans is None:
+                sops, sans = o, a
+            mm2 = U.cache_spec_mismatches(f, t, sops, sans, U.first_wild_sysline_in_block(sops, sans)) or mm
+            j, what = mm2[0]
+            exp = U.py_spec_find_line(f, sops[j][1]) if what == "find_line" else \
+                U.py_spec_find_sysline(f, t, sops[j][1]) if what == "find_sysline" else what
+            ctx.failure(dict(file_hex=f.hex(), blocksz=bs, cache_ops=[list(x) for x in sops], op_index=j,
+                             original_ops=len(o), dated={k_.hex(): v for k_, v in t.items()}),
+                        "Spec/LinesSpec.v %s: %r" % (what, exp), repr(sans[j])[:500], [])
+    # the python transliteration of the spec functions is cross-checked against Coq on the same answers
+    for name, builder, cs in (("spec_find_line", U.coq_spec_line_cases, coq_l[:4000]),
+                              ("spec_find_sysline", U.coq_spec_sysline_cases, coq_s[:4000])):
+        b2 = U.eval_shards(ctx, os.path.join(cdir, "cache_" + name), builder, cs, "spec evaluation " + name + " (cache mode)")
+        if b2 and not ctx.failures:
+            sh, k, c = b2[0]
+            ctx.obligation_broken("spec-evaluation", "python transliteration of %s disagrees with Spec/LinesSpec.v" % name,
+                                  repr(cs[sh[k]])[:1500])
+    for name, dev in wit_ok.items():
+        if not dev:
+            ctx.obligation_broken("correspondence", "recorded cache witness %s no longer deviates from the spec "
+                                  "(Proofs/CachesExamples.v states a refuted property of the current code)" % name, "")
+    return dict(cache_files=len(cases), cache_operations=n_ops, cache_operations_judged_against_spec=n_judged,
+                cache_counters_compared=sum(len(x.get("cnt", [])) for a in ans for x in a),
+                cache_model_disagreements=len(dis), cache_spec_failures=fails,
+                cache_documented_panics_after_drop=panics_doc, cache_paths=dict(sorted(paths.items())),
+                cache_witnesses_reproduced={k_: bool(v) for k_, v in wit_ok.items()},
+                cache_sequences_with_drops=sum(1 for o in cops if any(x[0] in ("CDD", "CDS") or (x[0] == "CRD" and "1" in x[1]) for x in o)),
+                cache_sequences_wild=sum(1 for p_ in prof if p_ == "wild"))
+
+
 def run(ctx):
     quick = ctx.quick()
     rng = ctx.rng
@@ -108,7 +240,7 @@ def run(ctx):
     if consts.get("SYSLOG_SZ_MAX") != U.SYSLOG_SZ_MAX or consts.get("BLOCKSZ_DEF") != U.BLOCKSZ_DEF:
         ctx.obligation_broken("translator", "constants used by the class predicates changed", json.dumps(consts))
     # ---- A
-    vlib.proof_stage(ctx, PROP_FILE, ["blocks"], extra_targets=["Corr/C02.vo"])
+    vlib.proof_stage(ctx, PROP_FILE, ["blocks"], extra_targets=["Corr/C02.vo", "Corr/C02c.vo"])
     okh, logh = vlib.build_harness("c02")
     oks, logs = vlib.build_s4()
     if not okh or not oks:
@@ -116,6 +248,9 @@ def run(ctx):
         return ctx.finish()
     scratch = vlib.scratch_dir("C02")
     cdir = os.path.join(vlib.CACHE, "cases", "C02")
+
+    # ---- B2 + C3: the cache model (first: its failing sequences are shrunk and lead the replay file)
+    cache_cov = run_cache_mode(ctx, rng, quick, scratch, cdir)
 
     # ---- B + C1: in-process
     cases = inproc_cases(rng, 260 if quick else 6000)
@@ -246,11 +381,13 @@ def run(ctx):
         binary_file_kib_histogram={str(k): v for k, v in sorted(sizes.items())},
         blocksz_histogram={str(b): sum(1 for c in cases if c[0] == b) for b in sorted(set(c[0] for c in cases))},
         model_disagreements=model_dis, spec_failures_inprocess=spec_dis, binary_failures=bin_fail, panics=panics,
-        spec_python_vs_coq_cases=len(coq_cross))
+        spec_python_vs_coq_cases=len(coq_cross), **cache_cov)
     ctx.assumptions += [
         "`dated` (which lines carry a supported timestamp, and the instant) is an oracle: theorems hold for every `dated`; the runs instantiate it with the generator's table "
         "(one ISO notation per file; continuation lines contain no two consecutive digits so no pattern can date them)",
-        "caches (LRU, lines, foend_to_fobeg, syslines, syslines_by_range) are memoisation and are not in the proved model; they are exercised by operation sequences only",
+        "the reader caches are modelled (Model/Caches.v) and proved to refine the pure searches; block storage (blocks, blocks_read, block LRU cache) is not: a plain file re-reads any block "
+        "(streamed containers, whose dropped blocks are gone, are C05/C17's subject); SyslogProcessor::drop_data's drop_block_last shortcut is covered by quantifying over every drop plan",
+        "find_sysline_in_block outside the block-zero-analysis pattern is tied to the model (B) but not judged against the spec: two refuted statements (Proofs/CachesExamples.v W2, W3), reproduced every run",
         "the printer writes the bytes of each message unchanged when no decoration is requested (--color never); decoration is C13's subject",
         "files rejected by the block-zero acceptance gate are outside the reader-core theorems: see the three known findings",
     ]
@@ -270,7 +407,16 @@ def replay(ctx, path):
             continue
         f = bytes.fromhex(c["file_hex"])
         tab = {bytes.fromhex(k): v for k, v in c.get("dated", {}).items()}
-        if "op" in c:
+        if "cache_ops" in c:
+            ans, tabs, cops = U.run_cache_cases([(c["blocksz"], f, tab, [tuple(o) for o in c["cache_ops"]])], scratch)
+            print("replay cache mode blocksz=%d ops=%s" % (c["blocksz"], c["cache_ops"]))
+            for o, a in zip(cops[0], ans[0]):
+                print("   %s -> %s" % (list(o), {k_: v for k_, v in a.items() if k_ != "cnt"}))
+            print("  expected=%s" % fl["expected"])
+            mm = U.cache_spec_mismatches(f, tabs[0], cops[0], ans[0], U.first_wild_sysline_in_block(cops[0], ans[0]))
+            if mm:
+                rc_all = 1
+        elif "op" in c:
             s = U.Session()
             s.add("F\t" + f.hex()); s.add("B\t%d" % c["blocksz"])
             for o in c["ops"]:
